@@ -18,7 +18,7 @@ class _Subst(ast.NodeTransformer):
 
 class SpecMixin:
     SPEC_FUNCS = {"forall", "exists", "forall2", "implies", "iff", "old", "strictly_increasing", "nondecreasing",
-                  "member", "psum", "same", "ite", "unchanged", "is_none", "card", "psum_monotone", "mpow", "wsum"}
+                  "member", "psum", "same", "ite", "unchanged", "is_none", "card", "psum_monotone", "mpow", "wsum", "intro_all", "intro"}
 
     def parse_spec(self, src):
         if src not in self._spec_cache:
@@ -43,7 +43,7 @@ class SpecMixin:
         return to_int(self.spec_val(src, st))
 
     def expand_macros(self, node):
-        macros = self.macros
+        macros = {k: v for k, v in (self.macros or {}).items() if k not in self.abstract_macros}
         if not macros:
             return node
 
@@ -98,8 +98,11 @@ class SpecMixin:
         st.guards.append(rng)
         for nm, k in zip(names, ks):
             st.vars[nm] = (Sc("int", k), True)
+        inner_q = None
         try:
-            body = truth(self.eval(lam.body, st))
+            bv = self.eval(lam.body, st)
+            inner_q = getattr(bv, "qinfo", None)
+            body = truth(bv)
         finally:
             st.guards.pop()
             extra = st.pc[n0:]
@@ -113,7 +116,15 @@ class SpecMixin:
         for e in extra:  # each already has the form guards -> fact, with the range among the guards
             st.pc.append(z3.ForAll(ks, e))
         if is_forall:
-            return Sc("bool", z3.ForAll(ks, z3.Implies(rng, body)))
+            if inner_q is not None:
+                # forall k: forall j: ...  ->  one quantifier over (k, j): far easier to instantiate
+                ivars, irng, ibody = inner_q
+                r = Sc("bool", z3.ForAll(ks + ivars, z3.Implies(z3.And(rng, irng), ibody)))
+                r.qinfo = (ks + ivars, z3.And(rng, irng), ibody)
+                return r
+            r = Sc("bool", z3.ForAll(ks, z3.Implies(rng, body)))
+            r.qinfo = (ks, rng, body)
+            return r
         return Sc("bool", z3.Exists(ks, z3.And(rng, body)))
 
     def spec_forall(self, node, st):
@@ -261,6 +272,75 @@ class SpecMixin:
         w = self.eval(node.args[1], st)
         return Mat(ws(self.eval(node.args[0], st).t, self.as_z3_array(st, w), self.eval_int(node.args[2], st)))
 
+    # ---- abstract predicates: a macro kept as an uninterpreted predicate of the *contents* of its argument
+    def flatten_terms(self, st, v):
+        if isinstance(v, Sc):
+            return [v.t]
+        if isinstance(v, Tup):
+            out = []
+            for x in v.items:
+                out += self.flatten_terms(st, x)
+            return out
+        if isinstance(v, (Ref, View)) and self.is_arr1(st, v):
+            return [self.as_z3_array(st, v), self.length_of(st, v)]
+        raise VCError("abstract predicate over %r" % (v,))
+
+    def spec_abstract(self, name, node, st):
+        v = self.eval(node.args[0], st)
+        ts = self.flatten_terms(st, v)
+        key = ("abs_" + name, tuple(str(t.sort()) for t in ts))
+        if key not in self.ufuncs:
+            self.ufuncs[key] = z3.Function("abs_" + name, *([t.sort() for t in ts] + [BOOL]))
+        return Sc("bool", self.ufuncs[key](*ts))
+
+    def _concrete_macro(self, name, argnode, st):
+        saved = self.abstract_macros
+        self.abstract_macros = set()
+        try:
+            call = ast.Call(func=ast.Name(id=name, ctx=ast.Load()), args=[argnode], keywords=[])
+            return truth(self.eval(self.expand_macros(call), st))
+        finally:
+            self.abstract_macros = saved
+
+    def spec_intro(self, node, st):
+        """intro('WF', x): prove the concrete definition of the macro for x, then know the abstract predicate."""
+        name = node.args[0].value
+        goal = self._concrete_macro(name, node.args[1], st)
+        saved, self.spec = self.spec, False
+        try:
+            self.oblige(st, "intro", node, goal, "definition of %s holds for %s (introduction of the abstract predicate)" % (name, ast.unparse(node.args[1])[:60]))
+        finally:
+            self.spec = saved
+        call = ast.Call(func=ast.Name(id=name, ctx=ast.Load()), args=[node.args[1]], keywords=[])
+        st.assume(self.spec_abstract(name, call, st).t)
+        return Sc("bool", z3.BoolVal(True))
+
+    def spec_intro_all(self, node, st):
+        """intro_all('WF', lst): for an arbitrary index c prove the concrete definition for lst[c]; then forall c the abstract predicate."""
+        name = node.args[0].value
+        lst = node.args[1]
+        n = self.length_of(st, self.eval(lst, st))
+        c = fresh("c", INT)
+        st.vars["__c"] = (Sc("int", c), True)
+        elem = ast.Subscript(value=lst, slice=ast.Name(id="__c", ctx=ast.Load()), ctx=ast.Load())
+        ast.fix_missing_locations(ast.copy_location(elem, node))
+        st.guards.append(z3.And(c >= 0, c < n))
+        try:
+            goal = self._concrete_macro(name, elem, st)
+            saved, self.spec = self.spec, False
+            try:
+                self.oblige(st, "intro", node, goal, "definition of %s holds for every element of %s (introduction of the abstract predicate)" % (name, ast.unparse(lst)[:60]))
+            finally:
+                self.spec = saved
+            call = ast.Call(func=ast.Name(id=name, ctx=ast.Load()), args=[elem], keywords=[])
+            ab = self.spec_abstract(name, call, st).t
+        finally:
+            st.guards.pop()
+            del st.vars["__c"]
+        # drop what oblige assumed for the one constant c and state it for all c
+        st.assume(z3.ForAll([c], z3.Implies(z3.And(c >= 0, c < n), ab)))
+        return Sc("bool", z3.BoolVal(True))
+
     def spec_same(self, node, st):
         """same(a, b): the two expressions denote the same heap object."""
         a = self.eval(node.args[0], st)
@@ -368,6 +448,10 @@ class SpecMixin:
             kinds = ["int", "int", "real", "int", "int", "int", "int"]
             items = [self.make_value(k + "[]", st, "%s_%s" % (prefix, nm)) for nm, k in zip(names, kinds)]
             return Tup(items, names, "CooArray")
+        if ty == "funcs":
+            f = Fn(prefix.split("p_")[-1], "param")
+            f.is_tuple = True
+            return f
         if ty.startswith("func"):
             return Fn(prefix.split("p_")[-1], "param")
         if ty == "opaque":
